@@ -89,6 +89,15 @@ def _grads(torch, G, S, seed, t):
     return out
 
 
+def _state_hashes(opt, p):
+    import torch
+    from optimizer_modules import OptimizerModule as OM
+
+    from .c09 import walk_state
+
+    return [(str(path), sha(t)) for path, t in walk_state(opt.state.get(p, {}), torch, OM) if path[-1:] != ("step",)]
+
+
 def rank_program(ds, torch, S, seed, rank, world, with_twin):
     from .. import gen as G
 
@@ -116,9 +125,17 @@ def rank_program(ds, torch, S, seed, rank, world, with_twin):
                         q.copy_(p)  # re-synchronise: only the rounding of the communicated quantity may separate them
             for q, g in zip(twin_p, grads):
                 q.grad = None if g is None else g.clone()
+        absent = [j for j, g in enumerate(grads) if g is None]
+        shadow = {j: _state_hashes(opt, params[j]) for j in absent}
         with capture() as rec:
             opt.step()
         hist["u_ddp"].append(rec)
+        for j in absent:
+            hist["absent_checked"] = hist.get("absent_checked", 0) + 1
+            if not beq(params[j].detach(), hist["old"][-1][j]):
+                raise Violation(f"step {t + 1}: rank {rank}: parameter {j} has no gradient but changed under DDP", step=t + 1, rank=rank, param=j, kind="absent_changed")
+            if _state_hashes(opt, params[j]) != shadow[j]:
+                raise Violation(f"step {t + 1}: rank {rank}: optimizer state of parameter {j} (no gradient) changed under DDP", step=t + 1, rank=rank, param=j, kind="absent_changed")
         if twin is not None:
             with capture() as rec2:
                 twin.step()
@@ -210,7 +227,7 @@ def run_case(case):
         from . import c06_gloo
 
         return c06_gloo.run(case, S)
-    counters = {"evals": 0, "replica_comparisons": 0, "serial_bitwise_steps": 0, "rounding_model_steps": 0, "owner_updates_compared": 0, "collectives_logged": 0, "group_creations_logged": 0, "steps_with_starved_rank": 0, "set_interleavings": []}
+    counters = {"evals": 0, "absent_params_checked": 0, "replica_comparisons": 0, "serial_bitwise_steps": 0, "rounding_model_steps": 0, "owner_updates_compared": 0, "collectives_logged": 0, "group_creations_logged": 0, "steps_with_starved_rank": 0, "set_interleavings": []}
     desc = {"W": S["W"], "G": S["G"], "comm": S["comm"], "communicate_params": S["communicate_params"], "cfg": S["cfg"], "shapes": S["shapes"], "presence_kind": S["presence_kind"], "presence": S["presence"], "T": S["T"]}
     # block geometry (param index, shape, strides, offset) keyed by block id, from a public-constructor serial Distributor
     from distributed_shampoo.utils.shampoo_distributor import Distributor
@@ -248,6 +265,7 @@ def run_case(case):
             raise
         if len(results) != S["W"]:
             raise Inconclusive("a rank did not finish although no error or deadlock was recorded")
+        counters["absent_params_checked"] += sum(h.get("absent_checked", 0) for h in results.values())
         d["_geometry"] = geo
         try:
             full = max(full, judge(torch, S, results, d, counters))
